@@ -171,7 +171,7 @@ Proof.
   - apply bounds_strict_spec, C2.
   - exact C3.
   - intros Ep Ei. rewrite Ep, Ei in C4. discriminate.
-  - intros Ep. rewrite Ep in C5. destruct (t_regs c); [reflexivity|discriminate|discriminate].
+  - intros Ep. rewrite Ep in C5. destruct (t_regs c); [reflexivity|discriminate|discriminate|discriminate].
   - intros es e Er Hin. rewrite Er in C6. cbn in C6. rewrite all_b_spec in C6. apply rtl_lib_reg_ok_spec, C6, Hin.
   - exact B1.
   - intros E. rewrite E in B2. discriminate.
@@ -249,6 +249,35 @@ Proof.
 Qed.
 Lemma reject_rtl_kfl_num_terms c : 1 <= t_num c -> t_param c = ParamKfl -> t_terms c < 0 -> accepts_rtl c = false.
 Proof. intros Hn Ep H. reject_with accepts_rtl_sound. destruct (rs_terms c (ra_sublayers c Hacc Hn) Ep); lia. Qed.
+
+(* kernel_regularizer given as a TUPLE of regulariser tuples: rtl_lib inspects
+   lists only, the Lattice sub-layers iterate the tuple: every entry must be a
+   3-tuple with a known name (and per-dimension amounts of the lattice rank) *)
+Lemma reject_rtl_tuple_of_tuples_entry c es e : 1 <= t_num c -> t_param c = ParamAll ->
+  t_regs c = RegTuples es -> In e es -> (re_len e <> 3 \/ re_name_known e = false) -> accepts_rtl c = false.
+Proof.
+  intros Hn Ep Er Hin H. apply (reject_rtl_lattice_regularizer c e Hn Ep).
+  - rewrite Er. exact Hin.
+  - destruct H as [H|H]; auto.
+Qed.
+(* as is: an int amount is a ValueError in the list form (rtl_lib: "l1 must be
+   a single float") but passes in the tuple-of-tuples form, which rtl_lib does
+   not inspect *)
+Lemma rtl_tuple_of_tuples_not_inspected : exists c e,
+  t_regs c = RegTuples [e] /\ re_l1 e = AmtInt /\ 1 <= t_num c /\ accepts_rtl c = true /\
+  accepts_rtl (mkRTL (t_num c) (t_rank c) (t_size c) (t_omin c) (t_omax c) (t_interp_ok c) (t_param c) (t_init c)
+                     (RegList [e]) (t_init_min c) (t_init_max c) (t_terms c) (t_keys_ok c) (t_inc c) (t_unc c)) = false.
+Proof.
+  exists (mkRTL 2 2 2 None None true ParamAll InitLatticeRanged (RegTuples [mkReg 3 true AmtInt AmtFloat])
+                None None 2 true None (Some 3)), (mkReg 3 true AmtInt AmtFloat).
+  repeat split; try reflexivity. cbn. lia.
+Qed.
+(* as is: the empty tuple is falsy for rtl_lib and for the Lattice sub-layers
+   (no regulariser) - but it "is not None", so 'kronecker_factored' rejects it *)
+Lemma rtl_empty_tuple_regularizer :
+  accepts_rtl (mkRTL 2 2 2 None None true ParamAll InitLatticeRanged (RegTuples []) None None 2 true None (Some 3)) = true /\
+  accepts_rtl (mkRTL 2 2 2 None None true ParamKfl InitKfl (RegTuples []) None None 2 true None (Some 3)) = false.
+Proof. split; reflexivity. Qed.
 
 (* as is: a negative num_lattices times a negative lattice_rank passes the
    "too small" test, no lattice is created, nothing else is checked (even an
